@@ -618,6 +618,12 @@ fn read_bed(w: &W, data: &Rc<Vec<u8>>, io: IoCfg) -> (Vec<Item<bed::Record>>, bo
     let mut rd = bed::Reader::new(src);
     let mut items = vec![];
     let mut ended = false;
+    // 1 reader in 6 asks for a new records() iterator after every `again` items: the new iterator
+    // must carry on where the previous one stopped
+    let again = if w.chance(1, 6) { 1 + w.draw(3) as usize } else { 0 };
+    if again > 0 {
+        w.probe("records_iterator_recreated_mid_stream");
+    }
     'outer: loop {
         let mut it = rd.records();
         loop {
@@ -633,6 +639,9 @@ fn read_bed(w: &W, data: &Rc<Vec<u8>>, io: IoCfg) -> (Vec<Item<bed::Record>>, bo
             }
             if items.len() > max_items {
                 break 'outer;
+            }
+            if again > 0 && items.len() % again == 0 {
+                continue 'outer;
             }
         }
     }
@@ -649,6 +658,12 @@ fn read_gff(w: &W, data: &Rc<Vec<u8>>, io: IoCfg, d: Dialect) -> (Vec<Item<gff::
     let mut rd = gff::Reader::new(src, d.ty());
     let mut items = vec![];
     let mut ended = false;
+    // 1 reader in 6 asks for a new records() iterator after every `again` items: the new iterator
+    // must carry on where the previous one stopped
+    let again = if w.chance(1, 6) { 1 + w.draw(3) as usize } else { 0 };
+    if again > 0 {
+        w.probe("records_iterator_recreated_mid_stream");
+    }
     'outer: loop {
         let mut it = rd.records();
         loop {
@@ -665,6 +680,9 @@ fn read_gff(w: &W, data: &Rc<Vec<u8>>, io: IoCfg, d: Dialect) -> (Vec<Item<gff::
             if items.len() > max_items {
                 break 'outer;
             }
+            if again > 0 && items.len() % again == 0 {
+                continue 'outer;
+            }
         }
     }
     w.set_budget(u64::MAX);
@@ -679,6 +697,8 @@ struct Workload {
     k: usize,
     gff: Vec<GffModel>,
     gff_recs: Vec<gff::Record>,
+    /// the caller keeps one record object and overwrites its fields between write() calls
+    reuse: bool,
 }
 
 impl Workload {
@@ -704,6 +724,7 @@ fn gen_workload(w: &W, fmt: Fmt) -> Result<Workload, Violation> {
         k: 0,
         gff: vec![],
         gff_recs: vec![],
+        reuse: false,
     };
     match fmt {
         Fmt::Bed => {
@@ -738,8 +759,14 @@ fn gen_workload(w: &W, fmt: Fmt) -> Result<Workload, Violation> {
     if wl.len() > 0 {
         w.probe("workload_nonempty");
     }
+    // one record object overwritten between writes (BED: only the columns that setters can replace)
+    wl.reuse = wl.len() > 1 && (wl.fmt != Fmt::Bed || wl.k <= 2) && w.chance(1, 5);
+    if wl.reuse {
+        w.probe("one_record_object_reused_for_all_writes");
+    }
     if w.keep_trace {
         w.note("workload", wl.json());
+        w.note("record_object_reused", json!(wl.reuse));
     }
     Ok(wl)
 }
@@ -748,12 +775,50 @@ fn produce<S: std::io::Write>(wl: &Workload, sink: S) -> Result<(), String> {
     match wl.fmt {
         Fmt::Bed => {
             let mut wr = bed::Writer::new(sink);
+            if wl.reuse {
+                let mut cur = wl.bed_recs[0].clone();
+                for (i, m) in wl.bed.iter().enumerate() {
+                    if i > 0 {
+                        cur.set_chrom(&m.chrom);
+                        cur.set_start(m.start);
+                        cur.set_end(m.end);
+                        if wl.k >= 1 {
+                            cur.set_name(&m.aux[0]);
+                        }
+                        if wl.k >= 2 {
+                            cur.set_score(&m.aux[1]);
+                        }
+                    }
+                    wr.write(&cur).map_err(|e| e.to_string())?;
+                }
+                return Ok(());
+            }
             for r in &wl.bed_recs {
                 wr.write(r).map_err(|e| e.to_string())?;
             }
         }
         Fmt::Gff(d) => {
             let mut wr = gff::Writer::new(sink, d.ty());
+            if wl.reuse {
+                let mut cur = gff::Record::new();
+                for (m, r) in wl.gff.iter().zip(&wl.gff_recs) {
+                    // in place where the type allows it (the String keeps its allocation)
+                    cur.seqname_mut().clear();
+                    cur.seqname_mut().push_str(&m.seqname);
+                    cur.source_mut().clone_from(&m.source);
+                    cur.feature_type_mut().clone_from(&m.feature);
+                    *cur.start_mut() = m.start;
+                    *cur.end_mut() = m.end;
+                    cur.score_mut().clear();
+                    cur.score_mut().push_str(&m.score);
+                    *cur.strand_mut() = m.strand.clone();
+                    *cur.phase_mut() = r.phase().clone();
+                    // the clone keeps the hasher and the table layout, hence the iteration order
+                    *cur.attributes_mut() = r.attributes().clone();
+                    wr.write(&cur).map_err(|e| e.to_string())?;
+                }
+                return Ok(());
+            }
             for r in &wl.gff_recs {
                 wr.write(r).map_err(|e| e.to_string())?;
             }
@@ -1359,7 +1424,116 @@ fn damage(w: &W, fmt: Fmt) -> Verdict {
             }
         }
     }
+    // "reported as errors for that record" also through Iterator methods other than next()
+    if w.chance(1, 3) {
+        methods_pass(w, fmt, &data)?;
+    }
     Ok(())
+}
+
+/// The same stored file through two fresh readers: one pulled with next() only (the baseline), one
+/// driven through count(), last(), nth(), skip() or step_by(). The Iterator contract ties each of
+/// them to the next() sequence, so the items must agree: Ok items equal, Err items at the same
+/// places. No EINTR here (csv ends after surfacing it); fragmentation is drawn.
+fn methods_pass(w: &W, fmt: Fmt, data: &Rc<Vec<u8>>) -> Verdict {
+    w.probe("damaged_file_through_iterator_methods");
+    fn same<T: PartialEq, E>(a: Option<&Item<T>>, b: Option<&Result<T, E>>) -> bool {
+        match (a, b) {
+            (None, None) => true,
+            (Some(Item::Ok(x)), Some(Ok(y))) => x == y,
+            (Some(Item::Err { .. }), Some(Err(_))) => true,
+            _ => false,
+        }
+    }
+    // the Records iterator itself is driven — an adaptor in between (map, by_ref) would route
+    // last()/nth()/count() through its own default implementations
+    fn drive<T: PartialEq + std::fmt::Debug, E: std::fmt::Display, I: Iterator<Item = Result<T, E>>>(w: &W, base: &[Item<T>], it: I) -> Result<(), String> {
+        let n = base.len();
+        let show = |x: Option<&Result<T, E>>| match x {
+            None => "None".to_string(),
+            Some(Ok(r)) => format!("Some(Ok({:?}))", r),
+            Some(Err(e)) => format!("Some(Err({}))", e),
+        };
+        let showb = |x: Option<&Item<T>>| match x {
+            None => "None".to_string(),
+            Some(Item::Ok(r)) => format!("Some(Ok({:?}))", r),
+            Some(Item::Err { text, .. }) => format!("Some(Err({:?}))", text),
+        };
+        match w.draw(5) {
+            0 => {
+                let c = it.count();
+                if c != n {
+                    return Err(format!("count() = {}, next() alone yields {} items", c, n));
+                }
+            }
+            1 => {
+                let l = it.last();
+                if !same(base.last(), l.as_ref()) {
+                    return Err(format!("last() = {}, the last item of next() alone is {}", show(l.as_ref()), showb(base.last())));
+                }
+            }
+            2 => {
+                let k = w.draw(n as u64 + 2) as usize;
+                let mut it = it;
+                let x = it.nth(k);
+                if !same(base.get(k), x.as_ref()) {
+                    return Err(format!("nth({}) = {}, item {} of next() alone is {}", k, show(x.as_ref()), k, showb(base.get(k))));
+                }
+                let y = it.next();
+                if !same(base.get(k + 1), y.as_ref()) {
+                    return Err(format!("next() after nth({}) = {}, item {} of next() alone is {}", k, show(y.as_ref()), k + 1, showb(base.get(k + 1))));
+                }
+            }
+            3 => {
+                let k = w.draw(n as u64 + 2) as usize;
+                let got: Vec<Result<T, E>> = it.skip(k).take(n + 2).collect();
+                let want = &base[k.min(n)..];
+                if got.len() != want.len() || got.iter().zip(want).any(|(g, b)| !same(Some(b), Some(g))) {
+                    return Err(format!("skip({}) yields {} items, next() alone yields {} after the first {}; or they differ", k, got.len(), want.len(), k));
+                }
+            }
+            _ => {
+                let step = 2 + w.draw(2) as usize;
+                let got: Vec<Result<T, E>> = it.step_by(step).take(n + 2).collect();
+                let want: Vec<&Item<T>> = base.iter().step_by(step).collect();
+                if got.len() != want.len() || got.iter().zip(&want).any(|(g, b)| !same(Some(*b), Some(g))) {
+                    return Err(format!("step_by({}) yields {} items where next() alone gives {}; or they differ", step, got.len(), want.len()));
+                }
+            }
+        }
+        Ok(())
+    }
+    let io = IoCfg::draw(w, false);
+    let res = match fmt {
+        Fmt::Bed => {
+            let (base, ended, _) = read_bed(w, data, IoCfg::CLEAN);
+            if !ended {
+                return Ok(());
+            }
+            let src = SimRead::new(w, data.clone(), io, "src");
+            w.set_budget(16 * data.len() as u64 + 1000);
+            let mut rd = bed::Reader::new(src);
+            let r = drive(w, &base, rd.records());
+            w.set_budget(u64::MAX);
+            r
+        }
+        Fmt::Gff(d) => {
+            let (base, ended, _) = read_gff(w, data, IoCfg::CLEAN, d);
+            if !ended {
+                return Ok(());
+            }
+            let src = SimRead::new(w, data.clone(), io, "src");
+            w.set_budget(16 * data.len() as u64 + 1000);
+            let mut rd = gff::Reader::new(src, d.ty());
+            let r = drive(w, &base, rd.records());
+            w.set_budget(u64::MAX);
+            r
+        }
+    };
+    match res {
+        Ok(()) => Ok(()),
+        Err(m) => fail("C13.e-malformed", format!("the damaged file through an Iterator method other than next(): {}", m)),
+    }
 }
 
 // ---------------------------------------------------------------------------------------------
@@ -1497,6 +1671,7 @@ fn bed_partitions(w: &W) -> Verdict {
             k,
             gff: vec![],
             gff_recs: vec![],
+            reuse: false,
         }
     };
     let mut wl = build(&models);
